@@ -86,8 +86,19 @@ structure DtypeRules where
   inplaceRefuseSize : Nat
   /-- `new_dtype = "f" + str(dsize)` in `convert_to_units` -/
   inplaceKind : DKind
-  /-- `np.dtype("f" + str(inp1.dtype.itemsize))` in `__array_ufunc__` -/
-  binaryKind : DKind
+  /-- kind of the dtype the second operand of a mixed-unit binary ufunc is converted in
+      (`__array_ufunc__`): `"c" if inp1.dtype.kind == "c" else "f"` as (test, then, else); the
+      constant form `np.dtype("f" + str(itemsize))` is `then = else = f` -/
+  binaryTestKind : DKind
+  binaryThenKind : DKind
+  binaryElseKind : DKind
+  /-- the LARGE_INPUT comparison: `true` for `np.abs(v) > large`, `false` for `>=` -/
+  largeStrict : Bool
+  /-- `in_base` carries the dtype block of `in_units` (item-size rule and LARGE_INPUT test) instead
+      of the bare `self.v * conv` -/
+  inBaseItemSize : Bool
+  /-- `to_value` on a quantity returns `complex(v)` for complex data instead of `float(v)` -/
+  toValueComplex : Bool
   /-- `out.dtype.kind in ("u", "i")`, `"f" + str(out.dtype.itemsize)` in `__array_ufunc__` -/
   outIntKinds : List DKind
   outKind : DKind
@@ -134,14 +145,17 @@ def inUnitsDtype (d : Dtype) : Except Err Dtype :=
 inductive ValueOut
   | ndarray (d : Dtype)
   | pyfloat
+  | pycomplex
 deriving DecidableEq, Repr
 
-/-- `unyt_array.to_value(units)`: `.in_units(units).value`, and `float(v)` on a `unyt_quantity` -/
+/-- `unyt_array.to_value(units)`: `.in_units(units).value`, and on a `unyt_quantity`
+    `complex(v)` for complex data (when the code has that branch), `float(v)` otherwise -/
 def toValueOut (d : Dtype) (isQuantity : Bool) : Except Err ValueOut :=
   match inUnitsDtype N P d with
   | .error e => .error e
   | .ok r =>
     if isQuantity then
+      if P.toValueComplex && r.kind == .c then .ok .pycomplex else
       match lookupD N.floatOf0d r with
       | some .typeError => .error .TypeError
       | some _ => .ok .pyfloat
@@ -159,9 +173,11 @@ def convertToUnitsDtype (d : Dtype) : Except Err Dtype :=
   else if N.imulPyFloatOk.contains d then .ok d
   else .error .TypeError
 
-/-- `unyt_array.in_base` (also `in_cgs`, `in_mks`): `self.v * conv` — NumPy's promotion of the
-    data with a Python float, no dtype code of unyt's own -/
-def inBaseDtype (d : Dtype) : Except Err Dtype := mulPyFloatDtype N d
+/-- `unyt_array.in_base` (also `in_cgs`, `in_mks`): either the dtype block of `in_units`
+    (`np.asarray(self.v * conv, dtype=new_dtype)`), or the bare `self.v * conv` — NumPy's promotion
+    of the data with a Python float, no dtype code of unyt's own -/
+def inBaseDtype (d : Dtype) : Except Err Dtype :=
+  if P.inBaseItemSize then inUnitsDtype N P d else mulPyFloatDtype N d
 
 /-- `out=` handling of `__array_ufunc__`: an integer `out` buffer is relabelled to
     `"f" + str(itemsize)` (TypeError `'f1'` for 1-byte items) -/
@@ -169,8 +185,9 @@ def outPromote (o : Dtype) : Except Err Dtype :=
   if P.outIntKinds.contains o.kind then npDtype N P.outKind o.size else .ok o
 
 /-- the dtype the second operand of a mixed-unit binary ufunc is converted to:
-    `np.dtype("f" + str(inp1.dtype.itemsize))`, whatever its kind -/
-def binaryOperandDtype (d1 : Dtype) : Except Err Dtype := npDtype N P.binaryKind d1.size
+    `np.dtype(kind + str(inp1.dtype.itemsize))` with `kind = "c" if inp1.dtype.kind == "c" else "f"` -/
+def binaryOperandDtype (d1 : Dtype) : Except Err Dtype :=
+  npDtype N (if d1.kind = P.binaryTestKind then P.binaryThenKind else P.binaryElseKind) d1.size
 
 def boolDtype : Dtype := ⟨.b, 1⟩
 def float64 : Dtype := ⟨.f, 8⟩
@@ -219,11 +236,13 @@ def equivInplaceDtype (d : Dtype) : Except Err Dtype :=
 def npAbs (d : Dtype) (v : Int) : Int :=
   if d.kind = .i ∧ v = -((2 : Int) ^ (8 * d.size - 1)) then v else Int.ofNat v.natAbs
 
-/-- `large = LARGE_INPUT.get(dsize, 0); large and np.any(np.abs(values) > large)` -/
+/-- `large = LARGE_INPUT.get(dsize, 0); large and np.any(np.abs(values) >= large)` (`>` when
+    `largeStrict`) -/
 def largeWarns (dsize : Nat) (d : Dtype) (vs : List Int) : Bool :=
   match P.largeInput.lookup dsize with
   | none => false
-  | some large => large != 0 && vs.any (fun v => decide (npAbs d v > Int.ofNat large))
+  | some large => large != 0 && vs.any (fun v =>
+      if P.largeStrict then decide (npAbs d v > Int.ofNat large) else decide (npAbs d v ≥ Int.ofNat large))
 
 /-- copy route: checked for integer kinds with `dsize = max(2, itemsize)` -/
 def inUnitsWarns (d : Dtype) (vs : List Int) : Bool :=
@@ -258,8 +277,8 @@ def Route.inPlace : Route → Bool
   | .convertToUnits | .convertToBase | .convertToEquivalent => true
   | _ => false
 
-/-- dtype of the data a route produces (for `to_value` on a quantity the data is a Python float,
-    which is reported as float64) -/
+/-- dtype of the data a route produces (for `to_value` on a quantity the data is a Python float /
+    complex, reported as float64 / complex128) -/
 def routeDtype (N : NumpyFacts) (P : DtypeRules) (r : Route) (d : Dtype) (isQuantity : Bool) :
     Except Err Dtype :=
   match r with
@@ -269,20 +288,22 @@ def routeDtype (N : NumpyFacts) (P : DtypeRules) (r : Route) (d : Dtype) (isQuan
     | .error e => .error e
     | .ok (.ndarray x) => .ok x
     | .ok .pyfloat => .ok float64
-  | .inBase => inBaseDtype N d
+    | .ok .pycomplex => .ok ⟨.c, 16⟩
+  | .inBase => inBaseDtype N P d
   | .convertToUnits | .convertToBase => convertToUnitsDtype N P d
   | .toEquivalent => equivCopyDtype N P d
   | .convertToEquivalent => equivInplaceDtype N P d
 
 /-- the LARGE_INPUT warning per route: does unyt's own code issue the "Overflow encountered while
-    converting" RuntimeWarning?  Only `in_units` and `convert_to_units` contain the test;
-    `in_base` multiplies without looking, and across dimensions the equivalence formulas turn
+    converting" RuntimeWarning?  `in_units` and `convert_to_units` contain the test,
+    `in_base` only when it carries the dtype block of `in_units`; across dimensions the equivalence formulas turn
     integers into floats through NumPy promotion / `out=` promotion before any test sees them. -/
 def routeWarns (P : DtypeRules) (r : Route) (d : Dtype) (vs : List Int) : Bool :=
   match r with
   | .to | .inUnits | .toValue => inUnitsWarns P d vs
   | .convertToUnits | .convertToBase => convertToUnitsWarns P d vs
-  | .inBase | .toEquivalent | .convertToEquivalent => false
+  | .inBase => P.inBaseItemSize && inUnitsWarns P d vs
+  | .toEquivalent | .convertToEquivalent => false
 
 /-! ### values: which operations touch the numbers -/
 
@@ -376,12 +397,15 @@ def convertToUnitsElem {K : Type} [Mul K] [Sub K] [BEq K] [OfNat K 0] (N : Numpy
   | .ok new => .ok (new, inplaceValue A new e f o)
   | .error e => .error e
 
-/-- `in_base` on one element -/
-def inBaseElem {K : Type} [Mul K] [Sub K] [BEq K] [OfNat K 0] (N : NumpyFacts)
+/-- `in_base` on one element: with the dtype block it is the copy route
+    (`np.asarray(self.v * conv, dtype=new)`, then `ret - offset` in `new`) -/
+def inBaseElem {K : Type} [Mul K] [Sub K] [BEq K] [OfNat K 0] (N : NumpyFacts) (P : DtypeRules)
     (A : NumOps K) (d : Dtype) (e : Elem K) (f : K) (o : Option K) : Except Err (Dtype × Elem K) :=
-  match inBaseDtype N d with
-  | .ok m => .ok (m, inBaseValue A m e f o)
-  | .error e => .error e
+  if P.inBaseItemSize then inUnitsElem N P A d e f o
+  else
+    match inBaseDtype N P d with
+    | .ok m => .ok (m, inBaseValue A m e f o)
+    | .error e => .error e
 
 /-- second operand of a mixed-unit binary ufunc on one element -/
 def binaryOperandElem {K : Type} [Mul K] [Sub K] [BEq K] [OfNat K 0] (N : NumpyFacts) (P : DtypeRules)
